@@ -33,6 +33,8 @@ if __name__ == '__main__':
     args = sys.argv[1:]
     if '--root' in args:
         i = args.index('--root'); root = args[i + 1]; del args[i:i + 2]
+    verbose = '-v' in args
+    args = [a for a in args if not a.startswith('-')]
     eng, gen, sol = run_bundle(args[0], root, args[1:] or None)
     bad = 0
     for ob in eng.obls:
@@ -40,7 +42,7 @@ if __name__ == '__main__':
         if not ok:
             bad += 1
             print('%-8s %s  (line %d) %s' % (ob.result['status'].upper(), ob.name, ob.line, ob.meta or ''))
-            if ob.result.get('model') and '-v' in sys.argv:
+            if ob.result.get('model') and verbose:
                 print('     ', {k: v for k, v in list(ob.result['model'].items())[:40]})
     for ob in sorted(eng.obls, key=lambda o: -o.result['time'])[:6]:
         print('   slow %.1fs %s [%s]' % (ob.result['time'], ob.name, ob.result['backend']))
